@@ -133,7 +133,7 @@ TEXTS["C13"] = {
     "technique": "runtime differential monitoring across container kinds and memory layouts",
 }
 TEXTS["C14"] = {
-    "text": "Exhaustive enumeration of every (start, size, parts) on every view size up to 12x12 (28x28 thorough) for seven view kinds and both "
+    "text": "Exhaustive enumeration of every (start, size, parts) on every view size up to 12x12 (28x34 thorough) for seven view kinds and both "
             "axes, with split-of-split: None exactly when the property says so; parts in order, sizes differing by at most one, each exposing "
             "exactly its band of identity tags; mutable parts write an index-dependent increment and the parent is read back: every band "
             "pixel incremented exactly once, nothing else changed.",
